@@ -140,11 +140,18 @@ def ordering(
 
 def conditions(tier):
     conds = [{"name": "collect", "func": "collect", "shard": {}, "timeout": 300}]
-    K = 6 if tier == "quick" else 10
+    K = 4 if tier == "quick" else 7
     tmo = 600 if tier == "quick" else 3000
     shapes = ["chain2", "chain3", "fork3", "join3", "mixed3"] if tier == "quick" else ["chain2", "chain3", "fork3", "join3", "mixed3", "diamond4", "chain4", "join4", "two2"]
     for sh in shapes:
         conds.append({"name": f"ordering/{sh}", "func": "ordering", "shard": {"shape": sh, "K": K}, "timeout": tmo})
     for sh, mask in (("chain2", [1, 1]), ("join3", [1, 1, 0])):
         conds.append({"name": f"ordering-token/{sh}", "func": "ordering", "shard": {"shape": sh, "K": K, "token": mask}, "timeout": tmo})
-    return conds
+    heavy = ("indep2", "join3", "indep3", "mixed3", "diamond4", "fork3", "chain4", "join4", "two2")
+    out = []
+    for c in conds:
+        if c["shard"].get("shape") in heavy:
+            out.extend(schedlib.with_prefixes(c, 2 if tier == "quick" else 3))
+        else:
+            out.append(c)
+    return out
